@@ -3,7 +3,7 @@ C13.panic, C13.alloc, C13.rec, C13.prog, C13.trunc, C13.read, C13.sink."""
 import re
 
 from sa import bounds, core, flow, decision, discipline as D
-from . import common, C16
+from . import common, C16, C13_treeid
 
 DEC_ROOTS = (r"^rbx_binary::from_reader$|^rbx_binary::deserializer::Deserializer::<'db>::deserialize$|^rbx_xml::from_reader$|^rbx_xml::from_reader_default$"
              r"|^rbx_xml::from_str$|^rbx_xml::from_str_default$|^rbx_xml::deserializer::decode_internal$|^rbx_types::attributes::Attributes::from_reader$"
@@ -25,11 +25,6 @@ DISCHARGED = {
     ("rbx_types::shared_string::SharedString::new", "unwrap", "unwrap∘shared_string::STRING_CACHE.lock()"): "poisoned only if a panic happened inside the critical section (C18.reent: none can)",
     ("rbx_dom_weak::dom::WeakDom::inner_insert", "unwrap", "unwrap∘self.instances.get_mut(referent)"): "the key was inserted by the statement before",
     ("rbx_dom_weak::dom::WeakDom::inner_insert", "unwrap", "unwrap∘UniqueId::now()"): "fails only if the system clock is before 2021 or after 2157 — environment, not input (documented in the source)",
-    ("rbx_xml::deserializer::ParseState::<'dom, 'db>::unknown_type_visited", "unwrap", "unwrap∘self.tree.get_by_ref(id)"): "`id` is the instance deserialize_instance inserted before reading its properties; decoders never remove instances",
-    ("rbx_xml::deserializer::apply_referent_rewrites", "unwrap", "expect∘state.tree.get_by_ref_mut(rewrite.id)"): "rewrite ids are ids of inserted instances; decoders never remove instances",
-    ("rbx_xml::deserializer::apply_shared_string_rewrites", "unwrap", "expect∘state.tree.get_by_ref_mut(rewrite.id)"): "as above",
-    ("rbx_xml::deserializer::deserialize_instance", "unwrap", "unwrap∘state.tree.get_by_ref_mut(instance_id)"): "instance_id was returned by tree.insert in the same activation",
-    ("rbx_xml::deserializer::deserialize_properties", "unwrap", "expect∘state.tree.get_by_ref(instance_id)"): "instance_id was inserted by the caller before",
     ("rbx_xml::deserializer::deserialize_instance", "unwrap", "unwrap∘reader.expect_next()"): "PEEK — inside an arm of `match reader.expect_peek()?`: the peeked event is buffered, so expect_next returns it",
     ("rbx_xml::deserializer::deserialize_root", "unwrap", "unwrap∘reader.expect_next()"): "PEEK",
     ("rbx_xml::deserializer::deserialize_shared_string_dict", "unwrap", "unwrap∘reader.expect_next()"): "PEEK",
@@ -70,6 +65,8 @@ def rule_panic(c, prog, g, dreach):
     c.rule(R, "every panic-capable construct (unwrap/expect, panic!/unreachable!/unimplemented!/assert!, indexing, slice ops, integer division) in code reachable from a decoder entry point is enumerated; each must be in the confirmed table with the invariant that discharges it, or it is a violation")
     n = 0
     computed = 0
+    treeids = 0
+    prov = None
     dbdep = 0
     fns_with_sites = 0
     for fn in lib_named(prog, dreach):
@@ -88,6 +85,15 @@ def rule_panic(c, prog, g, dreach):
                 why_c = bounds.const_index(s) or bounds.enum_index(fn, s) or nest.get(id(s["node"])) or bounds.guarded_index(fn, s) or bounds.chunk_index(fn, s)
                 if why_c:
                     computed += 1
+                    c.ok(R, inst)
+                    continue
+            key_expr = C13_treeid.is_tree_lookup(s) if fn.crate == "rbx_xml" else None
+            if key_expr is not None:
+                # the XML reader's own tree: ids of instances this decode inserted, never removed
+                if prov is None:
+                    prov = C13_treeid.Provenance(prog)
+                if C13_treeid.no_removals(prog, g, dreach) and prov.accepted(fn, key_expr):
+                    treeids += 1
                     c.ok(R, inst)
                     continue
             if C16.is_lookup_fn(prog, fn):
@@ -123,6 +129,7 @@ def rule_panic(c, prog, g, dreach):
     c.floor(R, n, 80, "panic-capable sites reachable from decoders")
     c.floor(R, computed, 3, "index sites discharged by a computed bound (sa.bounds)")
     c.floor(R, dbdep, 5, "descriptor-lookup sites discharged by a database obligation")
+    c.floor(R, treeids, 3, "XML tree lookups discharged by inserted-id provenance")
     c.analysed["decoder_reachable_functions"] = len(dreach)
     c.sample({"rule": R, "sites": n, "functions_with_sites": fns_with_sites, "example_discharge": {"site": DS + "decode_prop_chunk | unwrap∘self.instances_by_ref.get_mut(referent)", "invariant": DISCHARGED[(DS + "decode_prop_chunk", "unwrap", "unwrap∘self.instances_by_ref.get_mut(referent)")]}})
     # the invariant behind PROV:referents: instances_by_ref.remove only in finish; inserts of referents in decode_inst_chunk
